@@ -210,6 +210,43 @@ func genKeyGrid(r *rng, n int, p func(string, ...any)) {
 			}
 		}
 	}
+	// key_ops: every value near the registered range and near multiples of 64 / 256, alone, in both
+	// orders with sign / verify, and in unsorted lists; text forms of every registered name
+	{
+		opVals := []int64{1, 2, 3, 4, 5, 6, 7, 8, 9, 10, 11, 12, 0, -1, -2, 23, 24, 62, 63, 64, 65, 66, 127, 128, 129, 130,
+			255, 256, 257, 258, -62, -63, -64, -65, -126, -127, 65537, 65538, 1 << 32, 1<<32 + 1, 1<<32 + 2, -70000}
+		okp := func(ops *W) string {
+			k := &keyFields{kty: wInt(1), crv: wInt(6), ops: ops, x: wBstr(r.bytes(32)), d: wBstr(r.bytes(32))}
+			return hexs(k.wire(nil).enc())
+		}
+		for _, v := range opVals {
+			p("keyuse %s", okp(wArr(wInt(v))))
+			p("keyuse %s", okp(wArr(wInt(3), wInt(4), wInt(v))))
+			p("keyuse %s", okp(wArr(wInt(v), wInt(1))))
+			p("keyuse %s", okp(wArr(wInt(2), wInt(v))))
+		}
+		for _, l := range [][]int64{{2, 1}, {1, 2}, {7, 2, 1}, {2, 7, 1}, {1, 7, 2}, {10, 9, 8, 2}, {10, 1, 9}, {5, 1, 3}, {2, 2}, {1, 1, 2}, {9, 2, 1, 10}} {
+			items := []*W{}
+			for _, v := range l {
+				items = append(items, wInt(v))
+			}
+			p("keyuse %s", okp(wArr(items...)))
+		}
+		for _, nm := range []string{"sign", "verify", "encrypt", "decrypt", "wrapKey", "unwrapKey", "deriveKey", "deriveBits", "MAC create", "MAC verify", "Sign", "verify ", ""} {
+			p("keyuse %s", okp(wArr(wTstr(nm))))
+			p("keyuse %s", okp(wArr(wTstr(nm), wInt(1))))
+			p("keyuse %s", okp(wArr(wInt(2), wTstr(nm))))
+		}
+	}
+	// an integer label and the text label that spells it: two different labels, both kept
+	for _, n := range []int64{-2, -1, 7, 99, -70001, 1, 3} {
+		k := &keyFields{kty: wInt(2), crv: wInt(1), x: wBstr(coordOfLen(r, 32)), y: wBstr(coordOfLen(r, 32))}
+		k.extra = []*W{wTstr(fmt.Sprint(n)), wInt(5)}
+		if n > 5 || n < -4 {
+			k.extra = append(k.extra, wInt(n), wInt(6))
+		}
+		p("keyuse %s", hexs(k.wire(nil).enc()))
+	}
 	// OKP keys whose x / d have the other natural Ed25519 sizes (64-byte private key, 57-byte Ed448)
 	for _, crv := range []int64{6, 7, 4} {
 		for _, lx := range []int{-1, 32, 64, 57, 31} {
